@@ -990,7 +990,7 @@ def model_input(h, impl_lines):
         if l.startswith("parse "):
             if k >= len(evs):
                 break              # the implementation died before this parse
-            out.append("parse %s %s" % (l.split()[1], evs[k]))
+            out.append("parse %s %s | %s" % (l.split()[1], evs[k], " ".join(l.split()[3:])))
             k += 1
         else:
             out.append(l)
